@@ -659,10 +659,12 @@ func (g *Gen) opSysReset() {
 }
 
 func (g *Gen) opTokReset() {
-	n := rapid.IntRange(0, 2).Draw(g.t, "tidsn")
+	n := rapid.IntRange(0, 3).Draw(g.t, "tidsn")
 	var xs []string
 	for i := 0; i < n; i++ {
-		xs = append(xs, jstr(g.sample("tid", []string{"t1", "t2", "t3"})))
+		// the empty string addresses nobody: a connection whose token came without
+		// a token id has none
+		xs = append(xs, jstr(g.sample("tid", []string{"t1", "t2", "t3", "", "t1"})))
 	}
 	g.w.Exec(Op{K: "tokreset", P: `{"tids":[` + strings.Join(xs, ",") + `],"subject":"auth.t.renew"}`})
 }
